@@ -75,7 +75,7 @@ def build_model(spec):
                 p.mul_(2.5)                 # larger weights: the scores depend visibly on input, step and fed-back symbols
         net.dec_out_proj.weight.mul_(1.5)
         net.dec_out_proj.bias.zero_()
-        net.dec_out_proj.bias[IGN] = -3.0
+        net.dec_out_proj.bias[IGN] = -3.0 if seed % 2 == 0 else 0.3      # odd seeds: the ignore symbol is emitted now and then
         # calibrate the end-of-line bias so that lines finish at various steps: decode every batch once with the end-of-line symbol
         # disabled and put its bias at the 30 % quantile of (best other score - end-of-line score) over all lines and steps
         net.dec_out_proj.bias[SB] = -1e4
@@ -250,6 +250,8 @@ def check_case(case, ctx):
         ctx.tag('line-finished-at-first-step-while-others-continue')
     if any(f >= logits.shape[1] for f in finish):
         ctx.tag('line-hit-the-length-cap')
+    if any(IGN in [int(x) for x in logits[li].argmax(axis=-1)[:finish[li]]] for li in range(len(seeds))):
+        ctx.tag('ignore-symbol-emitted-mid-line')
     if len(hist) > 1:
         pn, pc = hist[-2]
         if len(BATCHES[pn][1]) == len(seeds):
@@ -272,5 +274,5 @@ def describe(tier):
         'min_nontrivial': 50,
         'required_tags': ['lines-finish-at-different-steps', 'line-hit-the-length-cap', 'previous-batch-of-same-size-and-width',
                           'previous-batch-of-same-size-other-width', 'cached-and-uncached-calls-mixed',
-                          'line-finished-at-first-step-while-others-continue'],
+                          'line-finished-at-first-step-while-others-continue', 'ignore-symbol-emitted-mid-line'],
     }
